@@ -227,9 +227,14 @@ def t2_samples(ctx, r):
                 ctx.fail("sample-does-not-match-template", f"sample {impl!r} does not match {t!r}", {"template": t})
 
 
+ALL_BUT_PAGING_VARIANTS = [f for f in FEATURES if f not in ("paged_scalar", "paged_map", "paged_wrapper", "keyword_rpc")]
 CORPUS = [
-    {"features": ["custom_lro", "server_stream", "bidi_stream", "client_stream", "delete_void", "map_field", "oneof_flat", "nested"],
-     "opts": ["transport=grpc+rest"], "mixins": [], "ads": False},
+    # every feature of the profile at once (so that no single-feature regression of the test templates can hide), per transport
+    {"features": ALL_BUT_PAGING_VARIANTS + ["paged_wrapper"], "opts": ["transport=grpc+rest"], "mixins": ["iam", "locations", "operations"], "ads": False},
+    {"features": ALL_BUT_PAGING_VARIANTS + ["paged_scalar", "keyword_rpc"], "opts": ["transport=rest", "rest-numeric-enums"], "mixins": [], "ads": False},
+    {"features": ALL_BUT_PAGING_VARIANTS + ["paged_map"], "opts": ["transport=grpc", "metadata"], "mixins": ["operations"], "ads": False},
+    {"features": ["custom_lro", "server_stream", "int_path_var", "delete_void", "map_field", "nested", "two_path_vars", "additional_bindings"],
+     "opts": ["transport=grpc+rest", "python-gapic-templates=ads-templates", "old-naming"], "mixins": [], "ads": True},
 ]
 
 
@@ -241,7 +246,7 @@ def run(ctx):
     ctx.assume("excluded shapes E1-E5 of DESIGN §8.2 are not generated; async REST cannot be enabled through options at this commit")
     r = ctx.rng("conventional")
     t2_samples(ctx, r)
-    cases = list(CORPUS) + [gen_case(r) for _ in range(ctx.n(9, 160))]
+    cases = list(CORPUS) + [gen_case(r) for _ in range(ctx.n(8, 160))]
     with ThreadPoolExecutor(max_workers=4) as ex:
         outs = list(ex.map(one, cases))
     for case, out in zip(cases, outs):
